@@ -173,7 +173,7 @@ def check(prop_id, tier, seed):
     for o in obligations:
         per_unit[o["unit"]] = per_unit.get(o["unit"], 0) + 1
     for ur in ures:
-        if per_unit.get(ur["unit"], 0) == 0 and not ur["unsupported"]:
+        if "crash" not in ur and per_unit.get(ur["unit"], 0) == 0 and not ur["unsupported"]:
             log("CHECKER-ERROR unit %s generated zero obligations" % ur["unit"])
             return finish(prop_id, tier, seed, t_start, exit_code=3, error="zero obligations")
 
